@@ -24,6 +24,11 @@ def variants(rng, base, tier, k):
         if v == 0:
             c["ops"] = [("commit", strat, [])]
             c["how"] = "scratch"
+            dart_ = [a for a in arts if a[1] == "d"]
+            if dart_ and k % 2 == 1:
+                # dud is started INSIDE the directory artifact it commits
+                c["cwd"] = dart_[0][0]
+                c["how"] = "scratch-from-inside-the-artifact"
         elif v == 1:
             init = list(final)
             rng.shuffle(init)                      # other creation order (listing order on tmpfs/ext4 differs)
@@ -152,7 +157,31 @@ def finding_of(run, tag, text):
     return None
 
 
+def hasher_history(R):
+    """the checksum of a byte string does not depend on what the process hashed before, in particular not on a read that FAILED
+    half-way through an earlier computation (in-process: real checksum.Checksum with scripted readers)"""
+    import subprocess
+    h = vlib.build_harness("inproc")
+    lines, expect = [], []
+    for i in range(40):
+        seed, n = i * 7 + 1, [0, 1, 1000, 70000, 200001][i % 5]
+        if i % 3 == 1:
+            lines.append("0 g:%d:%d %s err" % (seed + 1000, 100000, "65536,1000"))      # a reader that fails after 66 536 bytes
+        lines.append("0 g:%d:%d -" % (seed, n))
+    p = subprocess.run([h, "sum"], input=("\n".join(lines) + "\n").encode(), stdout=subprocess.PIPE, stderr=subprocess.PIPE, timeout=600)
+    out = p.stdout.decode().split("\n")[:-1]
+    p2 = subprocess.run([h, "sum"], input=("\n".join(l for l in lines if not l.endswith("err")) + "\n").encode(), stdout=subprocess.PIPE, stderr=subprocess.PIPE, timeout=600)
+    clean = p2.stdout.decode().split("\n")[:-1]
+    got = [o for l, o in zip(lines, out) if not l.endswith("err")]
+    R.count("hasher-history", True)
+    bad = [(l, a, b) for l, a, b in zip([l for l in lines if not l.endswith("err")], got, clean) if a != b]
+    if bad or len(got) != len(clean):
+        R.violation(dict(kind="property-violated-on-implementation", scenario="checksum.Checksum after a failed read in the same process",
+                         violations=["the checksum of `%s` is %s after an earlier computation failed half-way, %s in a process where nothing failed" % b_ for b_ in bad[:3]]))
+
+
 def groups(R, dud, drv, rng, tier, runs):
+    hasher_history(R)
     """cross-history part: same final tree => same recorded checksums; one object per distinct content"""
     by = {}
     for r in runs:
